@@ -1554,13 +1554,20 @@ namespace bloch::compiler {
         for (const auto& kv : m_classes) {
             declare(kv.first, true, combine(ValueType::Unknown, kv.first), true);
         }
-        // Predeclare functions
+        // Predeclare functions together with their signatures, so calls can be checked
+        // regardless of declaration order (and from class bodies, which are visited first).
         for (auto& fn : program.functions) {
             if (isFunctionDeclared(fn->name)) {
                 throw BlochError(ErrorCategory::Semantic, fn->line, fn->column,
                                  "'" + fn->name + "' is already declared in this scope");
             }
             declareFunction(fn->name);
+            FunctionInfo info;
+            info.returnType = typeFromAst(fn->returnType.get());
+            for (auto& p : fn->params) {
+                info.paramTypes.push_back(typeFromAst(p->type.get()));
+            }
+            m_functionInfo[fn->name] = info;
         }
         for (auto& cls : program.classes)
             if (cls)
